@@ -135,6 +135,7 @@ class WorldA:
         self.slots = {}      # name -> live object
         self.model = {}      # name -> dict(cfg=..., editP=bool, editW=bool)
         self.violations = []
+        self.sized = set()     # methods for which a request BY SIZE went through an atomic grid (hidden memo state)
         self._refs = _references(self.methods, self.degrees)
         reset_library()
 
@@ -174,6 +175,10 @@ class WorldA:
         for mth in self.methods:
             for rot in (0, 7):
                 evs.append(("Atom", mth, rot))
+        # the same SIZE request through an atomic grid for either method (a remembered size -> degree answer must not
+        # leak from one method to the other: seeded change C19-E)
+        for mth in self.methods:
+            evs.append(("AtomS", mth))
         if "g" in self.slots:
             evs.append(("Shell", 0))
             evs.append(("Shell", 1))
@@ -220,6 +225,26 @@ class WorldA:
                 self.model["g"] = {"cfg": ("atom", mth, rot), "editP": False, "editW": False}
                 self.slots.pop("s", None)
                 self.model.pop("s", None)
+                obs = (_h(g.points), _h(g.weights))
+            elif kind == "AtomS":
+                from grid.atomgrid import AtomGrid
+                from vf.props.c12 import listing, oracle_by_size
+
+                mth = ev[1]
+                self.sized.add(mth)
+                # one request list for both methods: the sizes of the first method's grids, and one point fewer
+                req = [len(shipped(self.methods[0], self.degrees[0])[0]), len(shipped(self.methods[0], self.degrees[1])[0]) - 1,
+                       len(shipped(self.methods[1], self.degrees[0])[0])]
+                want = [oracle_by_size(listing(mth), q) for q in req]
+                g = AtomGrid(self._rgrid(), degrees=None, sizes=list(req), method=mth)
+                got = [(int(d), int(b - a)) for d, a, b in zip(g.degrees, g.indices[:-1], g.indices[1:])]
+                if got != [(int(d), int(n)) for d, n in want]:
+                    self._bad(f"A:AtomS:{mth}:wrong-shells", f"AtomGrid(sizes={req}, method={mth}) after this history has shells (degree, size) "
+                              f"{got}; the method's table gives {want}")
+                else:
+                    h = AtomGrid(self._rgrid(), degrees=[int(d) for d, _ in want], method=mth)
+                    if not (np.array_equal(g.points, h.points) and np.array_equal(g.weights, h.weights)):
+                        self._bad(f"A:AtomS:{mth}:differs-from-by-degree", "atomic grid by sizes differs from the same grid by degrees")
                 obs = (_h(g.points), _h(g.weights))
             elif kind == "Shell":
                 g = self.slots["g"]
@@ -327,6 +352,7 @@ class WorldA:
                                 bool(np.shape(cw) == np.shape(rw) and np.allclose(cw, rw, rtol=1e-15, atol=0))))
                 else:
                     key.append((mth, dg, False, True, True))
+        key.append(("sized", tuple(sorted(self.sized))))
         for sl in ("a", "b", "g", "s", "m"):
             if sl not in self.slots:
                 key.append((sl, None))
